@@ -82,7 +82,7 @@ fn main() {
                         }
                     }
                     for l in &r.lints {
-                        println!("{:?} {}", l.span, l.message);
+                        println!("{:?} {} {:?}", l.span, l.message, l.suggestions.iter().map(|s| s.to_string()).collect::<Vec<_>>());
                     }
                 }
             }
